@@ -1,6 +1,8 @@
 """C14 - imports bind the same objects to the same names."""
 from __future__ import annotations
 
+import re
+
 from ..core import AnalysisError, RuleResult
 from ..semwalk import iter_tnodes
 from ..vals import Cst, Fresh, PList, Rep, TNode, UNode, UPrim, is_none
@@ -55,30 +57,51 @@ def rule_r1(ctx):
                 where=st.site, what=what,
             )
             continue
-        if not (isinstance(val, TNode) and val.kind == "Call"):
+        # `import a.b as c` binds getattr(getattr(__import__('a.b'), ...), 'b'): the attribute path from
+        # the top package, which a package may have rebound (`import unittest.main as m` is a class);
+        # importlib.import_module('a.b') is sys.modules['a.b'], the submodule
+        nest = isinstance(val, TNode) and val.kind == "$Nest"
+        call = val.fields["init"] if nest else val
+        if not (isinstance(call, TNode) and call.kind == "Call"):
             rr.fail("C14-R1|Import|value-shape", "PendingImport: the stored value is not an import call", what=what)
             continue
-        callee, n = _callee(val)
-        args = val.fields["args"].items
+        callee, n = _callee(call)
+        args = call.fields["args"].items
         arg0 = args[0].fields.get("value") if args and isinstance(args[0], TNode) and args[0].kind == "Constant" else None
         full_name = isinstance(arg0, UPrim) and arg0.field == "name" and not arg0.derived
         if not full_name:
-            rr.fail("C14-R1|Import|module-argument", f"PendingImport ({val.site}): the import call does not receive the full dotted name of the alias", where=val.site, what=what)
+            rr.fail("C14-R1|Import|module-argument", f"PendingImport ({call.site}): the import call does not receive the full dotted name of the alias", where=call.site, what=what)
             continue
         is_as = isinstance(name, UPrim) and name.field == "asname"
         first_component = isinstance(name, UPrim) and bool(name.derived)
+        dotted = None
+        for k, v in pr.assign.items():
+            if re.match(r"contains:.*alias\.name:'\.'$", k):
+                dotted = v
         if is_as:
-            want = "leaf"
+            want = "either" if dotted is False else "attribute-path"
         elif first_component:
             want = "top"
         else:
             want = "either"  # undotted name: top == leaf
-        got = {"import_module": "leaf", "__import__": "top" if n == 1 else "leaf"}.get(callee, "?")
-        if got == "?" or (want != "either" and got != want):
+        got = {"import_module": "leaf-module", "__import__": "top" if n == 1 else "leaf-module"}.get(callee, "?")
+        if nest:
+            step = val.fields.get("step")
+            attr = step.fields.get("attr") if isinstance(step, TNode) and step.kind == "Attribute" else None
+            over = str(getattr(val.fields.get("over"), "value", ""))
+            hole_ok = isinstance(step, TNode) and isinstance(step.fields.get("value"), TNode) and step.fields["value"].kind == "$NestHole"
+            comp_ok = isinstance(attr, UPrim) and attr.field == "name" and (attr.derived or "").startswith("split('.')")
+            if got == "top" and hole_ok and comp_ok and over.endswith("split('.')[1:]"):
+                got = "attribute-path"
+            else:
+                got = "?"
+        ok = got != "?" and (want == "either" or got == want or (want == "either" and got in ("top", "leaf-module")))
+        if not ok:
             rr.fail(
                 f"C14-R1|Import|binds-{got}-wants-{want}",
-                f"PendingImport ({val.site}): `{callee}` yields the {got} module but the bound name needs the {want} object [context: {short_ctx(pr, 80)}]",
-                where=val.site, what=what,
+                f"PendingImport ({call.site}): the bound value is the {got} ({callee}) but the name needs the {want} [context: {short_ctx(pr, 80)}]"
+                + ("; `import a.b as c` binds the ATTRIBUTE `b` of the package `a` (IMPORT_FROM), not sys.modules['a.b']: `import unittest.main as m` binds the class unittest.TestProgram, the converted text the module" if want == "attribute-path" else ""),
+                where=call.site, what=what,
             )
         else:
             rr.ok(what, sample={"rule": "C14-R1", "bound": "asname" if is_as else ("first component" if first_component else "name"), "callee": callee, "object": got})
